@@ -430,11 +430,23 @@ def check_cut_pairs(ctx, pairs, origin):
             ctx.sample({"kind": "cut", "source": cut[:300], "point": tp})
 
 
+def tail_tie(rng, last=False):
+    """a tie left open at the end of a part (the note sits in the tie buffer until the next note or the end of the song).
+    Groups of several notes are written in gate mode (Slur(2,0), per track): in the default mode a group is played with
+    pitch-bend and bend-range events, which play-from drops (upstream TODO #8; C14 speaks of notes, program, controller
+    and meta events) - that would make the pair differ for a reason outside the property."""
+    if last and rng.random() < 0.5:
+        return rng.choice(["f&", "g8&", "a2&", "e4.&", "n64,4&"]) + " "
+    return "Slur(2,0) " + rng.choice(["f&", "g8&", "c&c&", "d&e&", "a2&", "e&g4.&"]) + " "
+
+
 def gen_cut_here(rng):
     """`?` between two parts of a one-track program; the point is found with a marker note compiled in its place"""
     tb = rng.choice(TBS + [None, None])
     pre = ("TimeBase(%d) " % tb) if tb else ""
     parts = gen_parts(rng, rng.randrange(2, 8))
+    if rng.random() < 0.3:
+        parts.append(tail_tie(rng, last=True))
     k = rng.randrange(0, len(parts) + 1)
     full = pre + "".join(parts)
     cut = pre + "".join(parts[:k]) + rng.choice(["? ", "?", " ? "]) + "".join(parts[k:])
@@ -450,6 +462,8 @@ def gen_cut_front_sources(rng):
         if ntr > 1:
             body += "TR(%d) " % rng.randrange(1, ntr + 1)
         body += "".join(gen_parts(rng, rng.randrange(1, 5)))
+        if rng.random() < 0.3:
+            body += tail_tie(rng)
     return pre, body, tb or 96
 
 
